@@ -48,19 +48,33 @@ def without_rejected(prog, outs):
 def run(ctx):
     rng = ctx.rng('progs')
     n = 70 if ctx.tier == 'quick' else 800
-    for k in range(n):
-        prog, flavor = apistream.gen_program(rng, flavor=rng.choice(['rejects', 'rejects', 'mixed']))
+    import specgen
+    sweep = []
+    for tkey in specgen.SET_KINDS:
+        for inner in (apistream.reject_kinds(tkey) or [None])[: (2 if ctx.tier == 'quick' else 50)]:
+            sweep.append(apistream.gen_sandwich(rng, tkey, inner)[0])
+    for k in range(n + len(sweep)):
+        if k < len(sweep):
+            prog, flavor = sweep[k], 'sandwich'
+        else:
+            prog, flavor = apistream.gen_program(rng, flavor=rng.choice(['rejects', 'rejects', 'mixed']))
         r = apistream.run_one(ctx, prog, 'K-api')
         nrej = sum(1 for s, o in zip(prog, r['outs']) if o[0] == 'err' and s['op'] != 'write')
         ctx.count('K-api-programs', key=(k, nrej))
         ctx.stat('K-reject', 'rejected_calls', nrej)
-        if not r['files'] or nrej == 0:
+        if nrej == 0:
             continue
         clean = without_rejected(prog, r['outs'])
+        if not r['files']:
+            # the history with rejected calls could not be written: the history without them must fail as well
+            r2 = apistream.run_one(ctx, clean, 'K-api-clean')
+            if r2['files']:
+                ctx.violation('write-fails-only-because-of-earlier-rejected-calls', {'program': apistream.strip_private(prog)})
+            continue
         r2 = apistream.run_one(ctx, clean, 'K-api-clean')
         det = {'program': apistream.strip_private(prog), 'rejected_steps': [i for i, (s, o) in enumerate(zip(prog, r['outs'])) if o[0] == 'err']}
         if not r2['files']:
-            ctx.violation('history-without-rejected-calls-cannot-be-written', {**det, 'outs': [o[0] if o[0] == 'ok' else o for o in r2['outs']]})
+            ctx.violation('write-succeeds-only-because-of-earlier-rejected-calls', {**det, 'outs': [o[0] if o[0] == 'ok' else o for o in r2['outs']]})
             continue
         if any(o[0] == 'err' for s, o in zip(clean, r2['outs']) if s['op'] != 'write'):
             ctx.violation('call-accepted-after-rejections-is-rejected-without-them', det)
